@@ -380,6 +380,29 @@ def do_edit(doc, k, a):
             idx = numpy.array([0, a % n, (a + 1) % n], dtype=numpy.int32)
             g.primitives.append(g.createTriangleSet(idx, il, 'sym%d' % (a % 2)))
             break
+    elif k == 'add_primitive_semantic':
+        # a primitive added through a FRESH InputList naming a semantic from a small alphabet that also
+        # occurs as foreign semantic in loaded documents; what addInput does (accept or raise) is observed
+        sem = ['WEIRD', 'COLOR', 'WEIGHT', 'JOINT'][a % 4]
+        res = []
+        for g in doc.geometries:
+            srcs = [i for i, v in g.sourceById.items() if not isinstance(v, dict)]
+            if not srcs:
+                continue
+            il = source.InputList()
+            il.addInput(0, 'VERTEX', '#' + srcs[0])
+            try:
+                il.addInput(0, sem, '#' + srcs[0])
+                res.append('accepted')
+            except Exception as e:  # noqa
+                res.append(['raised', type(e).__name__])
+            res.append(sorted(il.inputs))
+            try:
+                g.primitives.append(g.createLineSet(numpy.array([0, 1], dtype=numpy.int32), il, None))
+            except Exception as e:  # noqa
+                res.append(['raised', type(e).__name__])
+            break
+        return res
     elif k == 'effect_color':
         if doc.effects:
             e = doc.effects[a % len(doc.effects)]
@@ -414,6 +437,10 @@ def do_edit(doc, k, a):
         res = []
         for g in doc.geometries:
             for p in g.primitives:
+                try:
+                    res.append([list(t) for t in p.getInputList().getList()])
+                except Exception as e:  # noqa
+                    res.append(['raised', type(e).__name__])
                 if hasattr(p, 'triangleset'):
                     ts = p.triangleset()
                     res.append([canon(ts.index), canon(ts.vertex), len(ts)])
